@@ -121,6 +121,21 @@ const (
 // start launches the worker process on w.dir and waits until it is ready,
 // dead, or the watchdog expires.
 func (w *worker) start(wait time.Duration) startResult {
+	for try := 0; ; try++ {
+		res := w.start1(wait)
+		if res == startDied && try < 4 {
+			// the worker's fixed port may momentarily be the source port of
+			// some other connection on this machine
+			if b, _ := os.ReadFile(w.errLog); strings.Contains(string(b), "address already in use") {
+				time.Sleep(500 * time.Millisecond)
+				continue
+			}
+		}
+		return res
+	}
+}
+
+func (w *worker) start1(wait time.Duration) startResult {
 	w.starts++
 	w.errLog = filepath.Join(w.dir, fmt.Sprintf("worker.%d.stderr", w.starts))
 	ef, err := os.Create(w.errLog)
